@@ -43,13 +43,16 @@ def _returns(fn):
 
 
 def _coll(v, e):
-  """Collection view of an expression (through locals); None when it is not one."""
+  """Collection view of an expression (through locals). AnalysisError when the expression is
+  not recognisably built by one pass over something (a violation needs a pass that was seen to
+  skip or filter rows, not a spelling that was not understood)."""
   if e is None:
-    return None
-  try:
-    return v.collection(e)
-  except AnalysisError:
-    return None
+    raise AnalysisError("%s: an expected argument is missing" % v.fn.qualname)
+  c = v.collection(e)
+  if c is None:
+    raise AnalysisError("%s: %s is not recognisably built by one pass over the rows"
+                        % (v.fn.qualname, short(e)))
+  return c
 
 
 def _over_all(coll, over):
@@ -65,9 +68,11 @@ def _never_stops(loop):
 def r1_equal_length(run, w):
   R1 = run.rule("C33-R1", "every emitted column is an unfiltered comprehension over the same "
                 "row list (equal length by construction)", floor=9)
+  H.require(w, M + "._transpose", M + "._dump_table")
   dt = H.xfn(w, M + "._dump_table", keep=KEEP)
   tp = H.xfn(w, M + "._transpose", keep=KEEP)
   vd, vt = H.View(dt), H.View(tp)
+  run = H.Guarded(run, [vd, vt], keep=KEEP)
   rows = dt.fi.params()[1]
   trows = tp.fi.params()[0]
   for (fn, v, p) in ((dt, vd, rows), (tp, vt, trows)):
@@ -223,8 +228,10 @@ def _branch_ok(facts, val, want, allowed_extra=()):
 def r2_add_row(run, w):
   R2 = run.rule("C33-R2", "add_row visits every key, recurses into every dict and list element, "
                 "stores scalars under the include test, numbers rows by position", floor=9)
+  H.require(w, M + "._dictify", M + ".Tables._is_included")
   fn = H.xfn(w, M + ".Tables.add_row", keep=KEEP)
   v = H.View(fn)
+  run = H.Guarded(run, v, keep=KEEP)
   cfg = fn.cfg
   q = fn.qualname
   ps = fn.fi.params()      # self, table, value, parent
@@ -263,7 +270,7 @@ def r2_add_row(run, w):
   run.ob(R2, dfy.qualname, "return value if isinstance(value, dict) else {'': value}",
          "objects are kept as they are, anything else becomes a one-cell row", got == want,
          fi=dfy.fi)
-  rowvar = _row_var(fn)
+  rowvar = _row_var(fn, v)
   sub = "%s + '_' + %s" % (p_table, kv)
   in_loop = lambda node: any(y is node for b in lp.body for y in ast.walk(b))
   recs = [(n, c) for (n, c, nm) in fn.calls() if text(c.func) == "self.add_row" and in_loop(c)]
@@ -340,7 +347,7 @@ def r2_add_row(run, w):
   mk = [(n, c) for (n, c, nm) in fn.calls() if nm == "Row"]
   app = [(n, c) for (n, c, nm) in fn.calls() if isinstance(c.func, ast.Attribute) and
          c.func.attr == "append" and len(c.args) == 1 and mk and
-         v.t(c.args[0]) in (rowvar, v.t(mk[0][1]))]
+         (v.t(c.args[0]) in (rowvar, v.t(mk[0][1])) or v.binding(c.args[0]) is mk[0][1])]
   ok = len(mk) == 1 and len(app) == 1
   if ok:
     rowsv = v.t(app[0][1].func.value)
@@ -368,6 +375,7 @@ def _dumps(run, R2, w, params, p_table, p_value, p_parent):
   """dumps(): every top-level item becomes a row of the main table."""
   dm = H.xfn(w, M + ".dumps", keep=KEEP)
   vm = H.View(dm)
+  run = H.Guarded(run, vm, keep=KEEP)
   dp = dm.fi.params()
   ok = False
   for (n, c, nm) in dm.calls():
@@ -461,6 +469,7 @@ def r3_parent_column(run, w):
                 "has a parent, and holds each row's own parent", floor=2)
   dt = H.xfn(w, M + "._dump_table", keep=KEEP)
   v = H.View(dt)
+  run = H.Guarded(run, v, keep=KEEP)
   rows = dt.fi.params()[1]
   pc = []
   for c in calls_in(dt.node.body):
@@ -640,12 +649,28 @@ def r4_shared_defaults(run, w):
     raise AnalysisError("%s: fewer than 2 functions use the shared default options" % M)
 
 
-def _row_var(fn):
-  for s in walk_no_nested(fn.node):
-    if isinstance(s, ast.Assign) and isinstance(s.value, ast.Call) and \
-        dotted(s.value.func) == "Row" and isinstance(s.targets[0], ast.Name):
-      return s.targets[0].id
-  raise AnalysisError("Tables.add_row: Row(...) construction not found")
+def _row_var(fn, v):
+  """The local that holds this call's row: the name add_row returns, every value of which is the
+  Row(...) built here or None (table excluded)."""
+  rets = _returns(fn)
+  if len(rets) == 1 and rets[0].value is not None:
+    r = v.alias_root(rets[0].value)
+    if isinstance(r, ast.Name):
+      alts = []
+      for (e, at, facts) in v.alternatives(r, at=v.point_of(rets[0].value)):
+        # the row object is filled in place later, so its name is kept: look at its binding
+        if isinstance(e, ast.Name) and at is not None and len(v.reaching(e.id, at)) == 1:
+          d = next(iter(v.reaching(e.id, at)))
+          val = v._plain_value(e.id, d) if d != v.ENTRY else None
+          if val is not None:
+            e = val
+        alts.append((e, at, facts))
+      if alts and all((isinstance(e, ast.Constant) and e.value is None) or
+                      (isinstance(e, ast.Call) and dotted(e.func) == "Row")
+                      for (e, at, facts) in alts) and \
+          any(isinstance(e, ast.Call) for (e, at, facts) in alts):
+        return r.id
+  raise AnalysisError("Tables.add_row: the row built by Row(...) is not what is returned")
 
 
 J = "sandbox/grist/imports/import_json.py"
